@@ -278,6 +278,83 @@ def run(ctx):
                   message=f"{c.name}.__init__ builds its RandomState as `{norm(v)}`, not from the seed argument", how="LazyRandomState(seed)")
     ctx.floor("R09.2", "samplers_with_rng", n_s, 6)
 
+    # ------------------------------------------------------------ R09.5 hash order
+    ctx.rule("R09.5", "hash-order confinement: no iteration over a set-typed local, and every use of a group-decomposed sub-space dict "
+             "(built from set operations on parameter names) goes through sorted() / len() / membership")
+    n_sets = 0
+    n_sub = 0
+    for f in p.iter_funcs(scope):
+        pm = parent_map(f.node)
+        set_names = set()
+        for n in own_nodes(f.node):
+            if isinstance(n, ast.Assign) and len(n.targets) == 1 and isinstance(n.targets[0], ast.Name):
+                v = n.value
+                if isinstance(v, (ast.Set, ast.SetComp)) or (isinstance(v, ast.Call) and dotted(v.func) in ("set", "frozenset")):
+                    set_names.add(n.targets[0].id)
+        changed = True
+        while changed:
+            changed = False
+            for n in own_nodes(f.node):
+                if isinstance(n, ast.Assign) and len(n.targets) == 1 and isinstance(n.targets[0], ast.Name) and n.targets[0].id not in set_names:
+                    v = n.value
+                    if isinstance(v, ast.BinOp) and isinstance(v.op, (ast.BitAnd, ast.BitOr, ast.Sub, ast.BitXor)) and any(
+                            isinstance(x, ast.Name) and x.id in set_names for x in (v.left, v.right)):
+                        set_names.add(n.targets[0].id)
+                        changed = True
+
+        def is_set_expr(e):
+            if isinstance(e, ast.Name):
+                return e.id in set_names
+            if isinstance(e, (ast.Set, ast.SetComp)):
+                return True
+            if isinstance(e, ast.Call) and dotted(e.func) in ("set", "frozenset"):
+                return True
+            if isinstance(e, ast.BinOp) and isinstance(e.op, (ast.BitAnd, ast.BitOr, ast.Sub, ast.BitXor)):
+                return is_set_expr(e.left) or is_set_expr(e.right)
+            return False
+        for n in own_nodes(f.node):
+            it = None
+            if isinstance(n, ast.For):
+                it = n.iter
+            elif isinstance(n, ast.comprehension):
+                it = n.iter
+            if it is not None and is_set_expr(it):
+                n_sets += 1
+                # building another set / testing membership does not expose the order
+                par = pm.get(id(n))
+                order_free = isinstance(par, ast.SetComp) or (isinstance(par, (ast.GeneratorExp, ast.ListComp)) and isinstance(pm.get(id(par)), ast.Call)
+                                                              and dotted(pm.get(id(par)).func) in ("set", "frozenset", "sorted", "any", "all", "sum", "len", "min", "max"))
+                in_scope_sampler = f.module.name.startswith(("optuna.samplers", "optuna.pruners", "optuna._gp"))
+                if in_scope_sampler:
+                    ctx.check(order_free, "R09.5", f.short, f"set-iteration:{norm(it)[:30]}",
+                              message=f"{f.name} iterates the set `{norm(it)}`: iteration order of a set of strings follows the per-process hash seed, so the "
+                                      f"sequence of sampling decisions differs between interpreter runs", how="result is order-free (set/sorted/any/all/sum/len)",
+                              where=where(f, it))
+        # sub-spaces of the group decomposition
+        for n in own_nodes(f.node):
+            if isinstance(n, ast.For) and isinstance(n.iter, ast.Attribute) and n.iter.attr == "search_spaces" and isinstance(n.target, ast.Name):
+                var = n.target.id
+                for x in ast.walk(n):
+                    if isinstance(x, ast.Name) and x.id == var and isinstance(x.ctx, ast.Load):
+                        n_sub += 1
+                        ok = False
+                        cur = x
+                        for a in ancestors(x, pm):
+                            if isinstance(a, ast.Call) and dotted(a.func) in ("sorted", "len") and any(any(y is x for y in ast.walk(arg)) for arg in a.args):
+                                ok = True
+                                break
+                            if isinstance(a, ast.Compare) and any(isinstance(o, (ast.In, ast.NotIn)) for o in a.ops):
+                                ok = True
+                                break
+                            if isinstance(a, ast.stmt):
+                                break
+                        ctx.check(ok, "R09.5", f.short, f"subspace-use:{var}",
+                                  message=f"{f.name} uses the group sub-space `{var}` (a dict built from set operations on parameter names, hence hash-ordered) "
+                                          f"without sorted(): parameter order, and with it the order of draws from the seeded RNG, depends on PYTHONHASHSEED",
+                                  how="sorted(sub_space.items()) / len / membership", where=where(f, x))
+    ctx.floor("R09.5", "group_subspace_uses", n_sub, 2)
+    ctx.count("R09.5", "set_iterations_seen", n_sets)
+
     # ------------------------------------------------------------ R09.3 census
     ctx.rule("R09.3", "census: how sampler/pruner code reads history (number-ordered Study/Storage API)")
     census = {}
